@@ -101,3 +101,39 @@ Lemma slot_durations_spec :
   (expr_eqb cf (slot_total gen_comp_ECR S0) (ESub tvar tg) && expr_eqb cf (slot_total gen_comp_ECR S1) (ESub tvar tg) = true) /\
   (expr_eqb cf (slot_total gen_comp_ECR_inv S0) (EAdd tvar tg) && expr_eqb cf (slot_total gen_comp_ECR_inv S1) (EAdd tvar tg) = true).
 Proof. vm_compute. repeat split. Qed.
+
+(* ---- composite gates: the exponent of the determinant along the product tree ---- *)
+(* 1/T1 of a T1 variable, as a fresh plain variable (index shifted by 2000) *)
+Definition iT (e : expr) : expr := match e with EVar v => EVar (2000 + v)%nat | _ => EVar 4999 end.
+Definition mhalf : expr := EQ (-1#2)%Q.
+Definition call_exponent (c : call) : expr :=
+  match c_fac c, c_args c with
+  | FX, [_; _; t1; _] | FSX, [_; _; t1; _] => EMul mhalf (EMul tg (iT t1))
+  | FSQ, [_; _; _; t1; _] => EMul mhalf (EMul tg (iT t1))
+  | FRelax, [dt; t1; _] => EMul mhalf (EMul dt (iT t1))
+  | FCR, [_; _; tcr; _; t1a; _; t1b; _] => ENeg (EMul tcr (EAdd (iT t1a) (iT t1b)))
+  | _, _ => EVar 4999
+  end.
+Fixpoint tree_exponent_expr (calls : list call) (t : ptree) : expr :=
+  match t with
+  | PSym k => match nth_error calls k with Some c => call_exponent c | None => EVar 4999 end
+  | PMul a b => EAdd (tree_exponent_expr calls a) (tree_exponent_expr calls b)
+  | PKron a b => EAdd (EAdd (tree_exponent_expr calls a) (tree_exponent_expr calls a)) (EAdd (tree_exponent_expr calls b) (tree_exponent_expr calls b))
+  | PScale _ a => tree_exponent_expr calls a
+  end.
+Definition comp_exponent (cp : composite) : expr := tree_exponent_expr (cp_calls cp) (cp_tree cp).
+Definition iT1c : expr := iT (EVar (vi "T1c")).
+Definition iT1t : expr := iT (EVar (vi "T1t")).
+(* d = 2: det G / det G_ideal = exp(-(tau_c / T1c + tau_t / T1t)) with tau = t (CNOT, reversed CNOT), t - tg (ECR), t + tg (reversed ECR) *)
+Lemma comp_exponents_spec :
+  expr_eqb cf (comp_exponent gen_comp_CNOT) (ENeg (EMul tvar (EAdd iT1c iT1t))) = true /\
+  expr_eqb cf (comp_exponent gen_comp_CNOT_inv) (ENeg (EMul tvar (EAdd iT1c iT1t))) = true /\
+  expr_eqb cf (comp_exponent gen_comp_ECR) (ENeg (EMul (ESub tvar tg) (EAdd iT1c iT1t))) = true /\
+  expr_eqb cf (comp_exponent gen_comp_ECR_inv) (ENeg (EMul (EAdd tvar tg) (EAdd iT1c iT1t))) = true.
+Proof. vm_compute. repeat split. Qed.
+(* the exponent mentions no p, no T2, no phase and no sample: only t, tg and the two 1/T1 *)
+Definition exponent_reads_ok (cp : composite) : bool :=
+  forallb (fun v => existsb (Nat.eqb v) [vi "t"; (2000 + vi "T1c")%nat; (2000 + vi "T1t")%nat]) (evars (comp_exponent cp)).
+Lemma comp_exponents_read_only_t_T1 :
+  exponent_reads_ok gen_comp_CNOT && exponent_reads_ok gen_comp_CNOT_inv && exponent_reads_ok gen_comp_ECR && exponent_reads_ok gen_comp_ECR_inv = true.
+Proof. vm_compute. reflexivity. Qed.
